@@ -70,6 +70,8 @@ fn remove_inode<Fd: AsFd>(dirfd: Fd, name: &Path) -> Result<(), Error> {
 }
 
 pub(crate) fn remove_all<Fd: AsFd>(dirfd: Fd, name: &Path) -> Result<(), Error> {
+    #[cfg(feature = "_verif_hooks")]
+    use crate::verif::ShimDir as Dir;
     let dirfd = dirfd.as_fd();
 
     if name.as_os_str().as_bytes().contains(&b'/') {
